@@ -31,12 +31,12 @@ type OwnAddr struct {
 // Coin is an output paying the wallet, as computed by the harness from the
 // events it emitted (never read from the wallet).
 type Coin struct {
-	OutPoint wire.OutPoint
-	Value    int64
-	Own      *OwnAddr
-	Block    *simchain.Block // nil: unconfirmed (in the backend's mempool)
-	Coinbase bool
-	SpentBy  *chainhash.Hash // a confirmed or mempool transaction spending it
+	OutPoint     wire.OutPoint
+	Value        int64
+	Own          *OwnAddr
+	Block        *simchain.Block // nil: unconfirmed (in the backend's mempool)
+	Coinbase     bool
+	SpentBy      *chainhash.Hash // a confirmed or mempool transaction spending it
 	SpentInChain bool
 }
 
@@ -199,6 +199,24 @@ func (f *Fixture) CheckTipAndHistory(where string, from int32) {
 			}
 		}
 		tns := tx.ReadBucket([]byte("wtxmgr"))
+		// direct lookups of everything that sat in a block which is not on the
+		// best chain any more (coinbases included): never an error, never
+		// "confirmed" in such a block
+		for _, ob := range f.Chain.Orphaned() {
+			for _, otx := range ob.Msg.Transactions {
+				h := otx.TxHash()
+				d, err := f.W.TxStore.TxDetails(tns, &h)
+				if err != nil {
+					return fmt.Errorf("looking up transaction %v of the disconnected block %d/%v failed: %v", h, ob.Height, ob.Hash, err)
+				}
+				if d == nil || d.Block.Height == -1 {
+					continue
+				}
+				if cb := f.Chain.ConfirmedIn(h); cb == nil || cb.Hash != d.Block.Hash {
+					return fmt.Errorf("transaction %v is reported confirmed in block %d/%v, which is not the best-chain block containing it", h, d.Block.Height, d.Block.Hash)
+				}
+			}
+		}
 		return f.W.TxStore.RangeTransactions(tns, 0, tip.Height+1000, func(ds []wtxmgr.TxDetails) (bool, error) {
 			for i := range ds {
 				d := &ds[i]
